@@ -331,6 +331,7 @@ def judge_obsw(ctx, c):
     why = oracle_obsw(it)
     if why:
         return ("spec", why)
+    it = P11.abstract_error_code(c["input"], it)      # M knows only THAT the handler answers with an error (see props/C11.py)
     if m is None or it != m:
         return ("tie", P11.first_diff(it, m or ""))
     return None
